@@ -74,7 +74,7 @@ fn rel(h: &Hdr, verifier_alg: i64) -> u64 {
 }
 
 pub fn run(ctx: &mut Ctx) {
-    let n = ctx.budget(20, 2000);
+    let n = ctx.budget(20, 500);
     for _ in 0..n {
         let key = SigningKey::random(&mut ctx.rng);
         let other = SigningKey::random(&mut ctx.rng);
